@@ -18,7 +18,7 @@ import sfc_models.sector
 import sfc_models.equation
 import sfc_models.models
 
-TERMS = ['x', '+x', '-x', '(-x)', '-(x)', '-(-x)', 'x*y', '-x/y', 'A__x', ' - y ', 'y', '-A__x*y']
+TERMS = ['x', '+x', '-x', '(-x)', '-(x)', '-(-x)', 'x*y', '-x/y', 'A__x', ' - y ', 'y', '-A__x*y', 'y/x', 'y*x']
 PRE_F = [(), ('x',), ('x', 'y'), ('x*y', 'A__x'), ('y', 'x/y')]
 FLOWVAR = ['absent', 'empty', 'zero', 'zero-dot', 'defined']
 EXCL = [(), ('x',), ('y',), ('x', 'y'), ('other:x',)]
